@@ -145,3 +145,50 @@ Definition query_two_d_tree (points : list pt) (r : rect) : list pt :=
   else query2d (S (length points)) 0 ofull r points.
 Definition build_two_d_tree (points : list pt) : list pt :=
   if Nat.leb (length points) 8 then points else build2d (S (length points)) true points.
+
+(* ---------- QueryTwoDTree with its explicit 64-entry stack ----------
+   The loop of tree2d.h literally: `stack` is (rectStack, viewStack, levelStack)
+   with the top first; None = the DEBUG_ASSERT(stackPointer < 64) would fail
+   (in release builds: a write past the three std::array<_, 64>) or the fuel
+   ran out. *)
+Definition kframe := (orect * list pt * nat)%type.
+Definition kStackSize : nat := 64.
+
+Fixpoint query_stk (fuel : nat) (level : nat) (cur : orect) (r : rect) (view : list pt)
+         (stack : list kframe) : option (list pt) :=
+  match fuel with
+  | O => None
+  | S f =>
+    let n := length view in
+    if Nat.leb n 8 then
+      let out := filter (contains r) view in
+      match stack with
+      | [] => Some out
+      | (c', v', l') :: st => option_map (app out) (query_stk f l' c' r v' st)
+      end
+    else
+      let h := Nat.div n 2 in
+      match skipn h view with
+      | [] => None
+      | m :: rightv =>
+        let leftv := firstn h view in
+        let (left, right) :=
+          if Nat.even level
+          then (mkORect (ominx cur) (ominy cur) (Some (px m)) (omaxy cur),
+                mkORect (Some (px m)) (ominy cur) (omaxx cur) (omaxy cur))
+          else (mkORect (ominx cur) (ominy cur) (omaxx cur) (Some (py m)),
+                mkORect (ominx cur) (Some (py m)) (omaxx cur) (omaxy cur)) in
+        let out := if contains r m then [m] else [] in
+        if ooverlap left r then
+          if ooverlap right r then
+            if Nat.ltb (length stack) kStackSize
+            then option_map (app out) (query_stk f (S level) left r leftv ((right, rightv, S level) :: stack))
+            else None
+          else option_map (app out) (query_stk f (S level) left r leftv stack)
+        else option_map (app out) (query_stk f (S level) right r rightv stack)
+      end
+  end.
+
+Definition query_two_d_tree_stk (points : list pt) (r : rect) : option (list pt) :=
+  if Nat.leb (length points) 8 then Some (filter (contains r) points)
+  else query_stk (2 * length points + 2) 0 ofull r points [].
